@@ -17,6 +17,23 @@ type GCAction struct {
 	Key  Key
 }
 
+// CRDCleanupFinalizer is the API server's finalizer that keeps a deleted CRD until all of its
+// instances are gone.
+const CRDCleanupFinalizer = "customresourcecleanup.apiextensions.k8s.io"
+
+// instancesOf lists the keys of the stored instances of the kind a CRD defines.
+func (w *World) instancesOf(crd map[string]any) []Key {
+	g := str(crd, "spec", "group")
+	kd := str(crd, "spec", "names", "kind")
+	var out []Key
+	for k := range w.objs {
+		if k.Group == g && k.Kind == kd {
+			out = append(out, k)
+		}
+	}
+	return out
+}
+
 func (w *World) byUID() map[string]map[string]any {
 	m := map[string]map[string]any{}
 	for _, o := range w.objs {
@@ -47,6 +64,17 @@ func (w *World) GCPending() []GCAction {
 				out = append(out, GCAction{"delete-orphaned", k})
 			case dangling > 0:
 				out = append(out, GCAction{"prune-dangling", k})
+			}
+		}
+		if Terminating(o) && k.Kind == "CustomResourceDefinition" && hasFinalizer(o, CRDCleanupFinalizer) {
+			inst := w.instancesOf(o)
+			if len(inst) == 0 {
+				out = append(out, GCAction{"crd-cleanup-finish", k})
+			}
+			for _, ik := range inst {
+				if !Terminating(w.objs[ik]) {
+					out = append(out, GCAction{"crd-cleanup-delete-instance", ik})
+				}
 			}
 		}
 		if Terminating(o) && hasFinalizer(o, metav1.FinalizerDeleteDependents) {
@@ -125,6 +153,18 @@ func (w *World) GCDo(a GCAction) error {
 			}
 		}
 		unstructured.SetNestedSlice(u.Object, keep, "metadata", "ownerReferences") //nolint:errcheck
+		return client.IgnoreNotFound(c.Update(ctx, u))
+	case "crd-cleanup-delete-instance":
+		return client.IgnoreNotFound(c.Delete(ctx, u))
+	case "crd-cleanup-finish":
+		fs, _, _ := unstructured.NestedStringSlice(u.Object, "metadata", "finalizers")
+		var keep []string
+		for _, f := range fs {
+			if f != CRDCleanupFinalizer {
+				keep = append(keep, f)
+			}
+		}
+		u.SetFinalizers(keep)
 		return client.IgnoreNotFound(c.Update(ctx, u))
 	case "finish-foreground":
 		fs, _, _ := unstructured.NestedStringSlice(u.Object, "metadata", "finalizers")
